@@ -19,6 +19,9 @@ pub enum FloatEnv {
     UlpAlt(i32),
     /// a subnormal result is flushed to zero (FTZ/DAZ)
     FlushSubnormal,
+    /// a native result of exactly 0 becomes the smallest subnormal (for exp2(-1075) the true value 2^-1075 is a
+    /// tie between the two, so either is within one ULP)
+    ZeroToMinSubnormal,
     /// relative error 2^-k (sign = direction): stress only, never bears a verdict
     Rel(i32),
     /// the result is replaced by zero, forcing any "intrinsic unusable" fallback: stress only
@@ -31,6 +34,7 @@ impl FloatEnv {
             FloatEnv::Native => 0,
             FloatEnv::Ulp(d) => 1000 + (d as i64 + 500) as u64,
             FloatEnv::FlushSubnormal => 1,
+            FloatEnv::ZeroToMinSubnormal => 3,
             FloatEnv::UlpAlt(d) => 5000 + (d as i64 + 500) as u64,
             FloatEnv::Rel(k) => 3000 + (k as i64 + 200) as u64,
             FloatEnv::ForceZero => 2,
@@ -41,6 +45,7 @@ impl FloatEnv {
             FloatEnv::Native => "native".into(),
             FloatEnv::Ulp(d) => format!("ulp{:+}", d),
             FloatEnv::FlushSubnormal => "flush_subnormal".into(),
+            FloatEnv::ZeroToMinSubnormal => "zero_to_min_subnormal".into(),
             FloatEnv::UlpAlt(d) => format!("ulp_alternating{:+}", d),
             FloatEnv::Rel(k) => format!("rel2^-{}{}", k.abs(), if k < 0 { "(down)" } else { "(up)" }),
             FloatEnv::ForceZero => "force_zero".into(),
@@ -55,6 +60,13 @@ impl FloatEnv {
             FloatEnv::Native => real,
             FloatEnv::Ulp(d) => nudge(real, d as i64),
             FloatEnv::UlpAlt(d) => nudge(real, if n % 2 == 0 { d as i64 } else { -(d as i64) }),
+            FloatEnv::ZeroToMinSubnormal => {
+                if real == 0.0 {
+                    f64::from_bits(1)
+                } else {
+                    real
+                }
+            }
             FloatEnv::FlushSubnormal => {
                 if real != 0.0 && real.abs() < f64::MIN_POSITIVE {
                     0.0
